@@ -70,7 +70,12 @@ func (p *packetizer) Packetize(payload []byte, samples uint32) []*Packet {
 		return nil
 	}
 
-	payloads := p.Payloader.Payload(p.MTU-12, payload)
+	mtu := p.MTU - 12
+	if p.extensionNumbers.AbsSendTime != 0 {
+		// leave room for the abs-send-time extension block (4 byte header, 1+3 byte element)
+		mtu -= 8
+	}
+	payloads := p.Payloader.Payload(mtu, payload)
 	packets := make([]*Packet, len(payloads))
 
 	for i, pp := range payloads {
